@@ -1,8 +1,10 @@
 package activitypub
 
 import (
+	"bytes"
 	"encoding/json"
 	"fmt"
+	"strings"
 	"time"
 
 	"git.sr.ht/~mariusor/go-xsd-duration"
@@ -121,22 +123,20 @@ func JSONWriteItemProp(b *[]byte, n string, i Item) (notEmpty bool) {
 	return notEmpty
 }
 
-func byteInsertAt(raw []byte, b byte, p int) []byte {
-	return append(raw[:p], append([]byte{b}, raw[p:]...)...)
-}
-
+// escapeQuote escapes s for use between the quotes of a JSON string. It applies the package's complete
+// JSON string escaper (stringBytes), except that a backslash immediately followed by a quote is taken to
+// be an already escaped quote and is kept as it is.
 func escapeQuote(s string) string {
-	raw := []byte(s)
-	end := len(s)
-	for i := 0; i < end; i++ {
-		c := raw[i]
-		if c == '"' && (i == 0 || raw[i-1] != '\\') {
-			raw = byteInsertAt(raw, '\\', i)
-			i++
-			end++
+	out := bytes.Buffer{}
+	for i, part := range strings.Split(s, `\"`) {
+		if i > 0 {
+			out.WriteString(`\"`)
 		}
+		e := bytes.Buffer{}
+		stringBytes(&e, []byte(part), false)
+		out.Write(e.Bytes()[1 : e.Len()-1])
 	}
-	return string(raw)
+	return out.String()
 }
 
 func JSONWriteStringValue(b *[]byte, s string) (notEmpty bool) {
